@@ -25,7 +25,7 @@ class DjangoSecureSetCookieTransformer(
                 "set_cookie"
             ):
                 new_args = self.replace_args(
-                    original_node,
+                    updated_node,
                     self._choose_new_args(original_node),
                 )
                 self.report_change(original_node)
